@@ -16,7 +16,7 @@ RULE = (
     "zeros in the stripped coordinate, negative entries and 6 orders of magnitude. evaluations = A+B+C; distinct_nontrivial = distinct (model "
     "kind, dimension, sources, monitor) cells with |mean xi| > 1e-3 before the call (A) or a non-trivial mixing matrix (B)"
 )
-REQUIRED = {"recentre_calls": 300, "recentre_in_fit": 100, "ortho_states": 300, "ortho_direct": 300, "recentre_joint": 20, "ortho_shared_speed": 20, "two_event_joint_cases": 2, "states_after_a_rejected_trial_move": 20}
+REQUIRED = {"recentre_calls": 300, "recentre_in_fit": 100, "ortho_states": 300, "ortho_direct": 300, "recentre_joint": 20, "ortho_shared_speed": 20, "two_event_joint_cases": 2, "states_after_a_rejected_trial_move": 20, "ortho_direct_with_non_default_strip_col": 50, "joint_states_with_wide_event_scales": 5}
 ASSUMPTIONS = [
     "float32 exp/log round trip: trajectories compared at 1e-5 absolute, attachment terms at 1e-5 relative (+1e-5 absolute); orthogonality "
     "residual judged relative to |a| |G d| at 1e-5 (measured 4e-8 on the unchanged tree)",
@@ -210,6 +210,12 @@ def run_shard(spec, ctx):
                         new = torch.tensor(rng.uniform(-3.0, 3.0, size=tuple(cur.shape)), dtype=cur.dtype)
                     elif pv == "betas":
                         new = torch.tensor(rng.uniform(-2.0, 2.0, size=tuple(cur.shape)), dtype=cur.dtype)
+                    elif pv == "n_log_nu" and i % 2:
+                        # Weibull scales from 1e-5 to 1e5 time units (ages counted in days, or in centuries)
+                        new = torch.tensor(rng.uniform(-11.5, 11.5, size=tuple(cur.shape)), dtype=cur.dtype)
+                        ctx.count("joint_states_with_wide_event_scales")
+                    elif pv == "log_rho" and i % 2:
+                        new = torch.tensor(rng.uniform(-1.5, 1.5, size=tuple(cur.shape)), dtype=cur.dtype)
                     else:
                         new = cur + torch.tensor(rng.normal(0, 0.3, size=tuple(cur.shape)), dtype=cur.dtype)
                     st[pv] = new
@@ -305,8 +311,13 @@ def _direct(spec, ctx):
         case = {"index": i, "direction": d.tolist(), "metric_kind": ["scalar", "diagonal", "matrix"][gm], "style": style}
         ctx.evaluated()
         ctx.count("ortho_direct")
+        # documented keyword: which column of the full basis is the one collinear to the direction (and dropped); default 0
+        strip = 0 if i % 3 else int(rng.integers(0, dim))
+        if strip:
+            case["strip_col"] = strip
+            ctx.count("ortho_direct_with_non_default_strip_col")
         try:
-            B = compute_orthonormal_basis(dt, Gt).double().numpy()
+            B = (compute_orthonormal_basis(dt, Gt, strip_col=strip) if strip else compute_orthonormal_basis(dt, Gt)).double().numpy()
         except Exception as e:
             ctx.violation("ortho/basis-raises", f"compute_orthonormal_basis raised {type(e).__name__}: {e} on an admissible (direction, metric)", case)
             continue
